@@ -302,8 +302,9 @@ def run_batch(prop, tier='quick', batch_seed=0, budget_s=None, nruns=None,
                                          total['viol_counts'][fp], v['seed']))
         else:
             new_viol.append(v)
-    for line in known_lines:
-        print(line)
+    if not quiet:
+        for line in known_lines:
+            print(line)
 
     exit_code = EXIT_OK
     replay_paths = []
